@@ -360,7 +360,7 @@ def r4_order_edges(ctx) -> None:
     ctx.check(ok, "C01.R4", "_ancestral_sibling: climbs from the target until the parent is the source's parent", prog.module("hugr.build.dfg").path, fn.lineno, "", fn)
 
 
-def r6_function_boundary(ctx) -> None:
+def r6_function_boundary(ctx, rule="C01.R6") -> None:
     m = ctx.program.module("hugr.build.dfg")
     fn = m.functions.get("_ancestral_sibling")
     if fn is None:
@@ -377,7 +377,7 @@ def r6_function_boundary(ctx) -> None:
     if ok:
         g = lp.body[guards[0]]
         ok = "tgt_parent" in u(g.test)      # the node being climbed *past* is the function
-    ctx.check(ok, "C01.R6", "_ancestral_sibling: the search does not leave a function definition", m.path, lp.lineno,
+    ctx.check(ok, rule, "_ancestral_sibling: the search does not leave a function definition", m.path, lp.lineno,
               "the ancestor walk climbs through a FuncDefn: a value wire from outside a function into its body is accepted and an order edge is added "
               "to the function node, but the validator forbids value edges into a function body (ValueEdgeIntoFunc). The walk must stop "
               "(return None -> NoSiblingAncestor) when the parent it would climb past is a FuncDefn", lp,
@@ -398,6 +398,19 @@ def run(ctx) -> None:
     r4_order_edges(ctx)
     r5_order_offset(ctx, rule="C01.R5")
     r6_function_boundary(ctx)
+    # rules shared with the properties that own these mechanisms (a defect there yields an invalid HUGR without any builder call raising)
+    ctx.rule("C01.R7", "tracked builder: node built from the currently tracked wires and indices rebound to the argument's own output position (shared with C15.R2/R3)", floor=4)
+    from .c15 import tracked_add_rules
+    tracked_add_rules(ctx, R2="C01.R7", R3="C01.R7")
+    ctx.rule("C01.R8", "insert_* wrappers wire in the order of their add_* twins (shared with C08.R5)", floor=5)
+    from .c08 import insert_wrappers
+    insert_wrappers(ctx, R5="C01.R8")
+    ctx.rule("C01.R9", "add_order_link joins out(-1) to inp(-1) unless exactly that link exists (shared with C04.R6)", floor=1)
+    from .c04 import order_link_rule
+    order_link_rule(ctx, "C01.R9")
+    from .. import lints
+    lints.arm(ctx)
+
 
 
 # ---------------------------------------------------------------------------------------
